@@ -1483,7 +1483,7 @@ func getters(t *vtree, on string) (raw, f, typ string, next *vtree, ok bool) {
 // importSplit checks Import's preamble for one format and returns the core:
 //
 //	if isnil(P0) { raw := nil; return nil }
-//	else if is(P0,Row) { Auto, Hidden: raw := the row; return nil — any other format: the core }
+//	else if is(P0,Row) { Auto, Hidden with no raw type: raw := the row; return nil — otherwise: the core }
 //	else if is(P0,Value) { f, raw, typ := its GetFormat(), Raw(), GetRawType(); return nil }
 //	else the core
 func (x *valX) importSplit(t *vtree, format string, keepsRow bool) (core *vtree, preambleOK bool) {
@@ -1505,7 +1505,10 @@ func (x *valX) importSplit(t *vtree, format string, keepsRow bool) (core *vtree,
 		return core, false
 	}
 	if keepsRow {
-		if !t1.then.isLeaf([]string{"nil"}, fields("as(P0,Row)")) {
+		// Auto, Hidden: the row is kept when the column has no raw type; a column declared with one takes the core
+		k := t1.then
+		if k == nil || k.kind != "if" || k.cond != "isnil(R.typ)" || !k.then.isLeaf([]string{"nil"}, fields("as(P0,Row)")) ||
+			k.els == nil || k.els.String() != core.String() {
 			return core, false
 		}
 	} else if t1.then.String() != core.String() {
